@@ -406,7 +406,7 @@ namespace CDNS {
             if (mmd.mm_transport_flags)
                 hash = hash_value(mmd.mm_transport_flags.value(), hash);
             if (mmd.mm_payload)
-                hash = hash_value(mmd.mm_payload.value(), hash);
+                hash = hash_value(mmd.mm_payload->data(), mmd.mm_payload->size(), hash);
 
             return hash;
         }
